@@ -233,6 +233,8 @@ def precedence(W, p):
     (sp / "sxonlypath.py").write_text(DECOY % "syspath-only")
     (tmp / "given").mkdir()
     (tmp / "given" / "sxmyibm.py").write_text(DECOY % "given-path")
+    (cwdv / "rel").mkdir()
+    (cwdv / "rel" / "sxmyibm.py").write_text(DECOY % "relative-path")
     x0 = W.real("x0", 6, 14)
     W.table(tmp / "r.rls", ["release_time", "X", "Y", "Z"], [[W.dt(T0), x0, 10, 5]])
     old = os.getcwd()
@@ -240,7 +242,8 @@ def precedence(W, p):
     os.chdir(cwdv)
     res = {}
     try:
-        for label, modname in (("bare", "sxmyibm"), ("path", str(tmp / "given" / "sxmyibm")), ("path.py", str(tmp / "given" / "sxmyibm.py")), ("syspath-only", "sxonlypath")):
+        for label, modname in (("bare", "sxmyibm"), ("path", str(tmp / "given" / "sxmyibm")), ("path.py", str(tmp / "given" / "sxmyibm.py")), ("syspath-only", "sxonlypath"),
+                               ("relative", "rel/sxmyibm"), ("relative.py", "rel/sxmyibm.py")):
             log = []
             cfg = base_config(W, start=T0, stop=T0 + 1 * DT, dt=DT, release_file=tmp / "r.rls",
                               output=dict(module=str(PLUG / "pout.py"), output_period=DT, log=[]), ibm=dict(log=log))
@@ -257,6 +260,7 @@ def precedence(W, p):
     W.prove(res.get("bare") == ["cwd"], "path-precedence", dict(case="bare name, file in cwd and on sys.path", got=res.get("bare")))
     W.prove(res.get("path") == ["given-path"] and res.get("path.py") == ["given-path"], "path-precedence", dict(case="explicit path", got=[res.get("path"), res.get("path.py")]))
     W.prove(res.get("syspath-only") == ["syspath-only"], "path-precedence", dict(case="only on sys.path", got=res.get("syspath-only")))
+    W.prove(res.get("relative") == ["relative-path"] and res.get("relative.py") == ["relative-path"], "path-precedence", dict(case="path relative to the working directory", got=[res.get("relative"), res.get("relative.py")]))
     # a module that exists nowhere ends in SystemExit
     cfg = base_config(W, start=T0, stop=T0 + DT, dt=DT, release_file=tmp / "r.rls", output=dict(module=str(PLUG / "pout.py"), output_period=DT, log=[]))
     cfg["ibm"]["module"] = "sx_no_such_module_anywhere"
